@@ -1,6 +1,7 @@
 package config
 
 import (
+	"bytes"
 	"encoding/json"
 	"errors"
 	"fmt"
@@ -139,6 +140,14 @@ func UpdatePartialFromConfig(cfg *Config, updates map[string]any) (UpdateStatus,
 		return UpdateStatusFailed, fmt.Errorf("%w: %v", ErrUpdateFailed, err)
 	}
 
+	// verify() looks at the effective values. A command-line override hides the stored value of its setting,
+	// but the stored value is what gets written and what the next start loads.
+	if err := cfg.verifyStored(); err != nil {
+		slog.Error("Updated config failed verification of the values to be stored", "error", err)
+		rollback()
+		return UpdateStatusFailed, fmt.Errorf("%w: %v", ErrUpdateFailed, err)
+	}
+
 	if err := cfg.persist(); err != nil {
 		slog.Error("Failed to persist updated config", "error", err)
 		rollback()
@@ -156,4 +165,22 @@ func UpdatePartialFromConfig(cfg *Config, updates map[string]any) (UpdateStatus,
 		status = UpdateStatusRestartRequired
 	}
 	return status, nil
+}
+
+// Verifies the configuration in the form it is written to disk (without command-line overrides),
+// the same way load() will when it reads that file.
+func (c *Config) verifyStored() error {
+	data, err := json.Marshal(c)
+	if err != nil {
+		return err
+	}
+
+	decoder := json.NewDecoder(bytes.NewReader(data))
+	decoder.DisallowUnknownFields()
+
+	var stored Config
+	if err := decoder.Decode(&stored); err != nil {
+		return err
+	}
+	return stored.verify()
 }
